@@ -60,6 +60,10 @@ add('C39', 'exploration',
     'TLA+ spec Control.tla: structured meaning with completion records evaluated by TLC for a family of nested foreach/if/function programs with break/continue/return, exported as a table; every program run by the real interpreter and compared',
     '132 programs (outer loop x optional inner loop x control statement kind and position in each) x 2 call contexts: printed tags and function exit number must equal the structured meaning computed by TLC.',
     'foreach loops over JSON literals; block names foreach/if/function name; while/switch not covered', 'DESIGN §6 C39')
+add('C22', 'exploration',
+    'TLA+ spec Resolve.tla: resolution order with single alias expansion evaluated by TLC over all definition subsets and alias targets, exported as a table; each row set up and run in the real interpreter',
+    'All 176 relevant combinations of {private, alias, function, builtin, external} x alias target {builtin, itself, another name} x definitions of the other name are enumerated by TLC; the definition that actually answers in murex (including self-referential aliases and alias-to-alias, which must not loop) is compared with the table.',
+    'caller inside the private\'s module only; builtin case uses the name `escape`', 'DESIGN §6 C22')
 
 
 def main():
